@@ -1,4 +1,5 @@
 import BigtoolsModel.CirBytes
+import BigtoolsModel.OverlapsGen
 import BigtoolsModel.WigSections
 import BigtoolsModel.WfIndex
 import BigtoolsModel.CheckedFile
@@ -83,3 +84,14 @@ theorem C10_nonleaf_node_at_end_of_file_read_repaired :
   nonleaf_at_eof_found_repaired 
 
 end BBI
+
+namespace RT
+
+/-- **The code's own pruning predicate.** `Gen.overlaps` is regenerated from the Rust source of `overlaps` (and of the
+    functions it calls) in bbiread.rs on every run; for all arguments it is the `ov` with which the search theorems
+    of reading foreign files are stated. A change to the source that alters the predicate breaks this obligation. -/
+theorem C10_source_overlaps_is_the_models_ov (q qs qe b1 b1s b2 b2e : Nat) :
+    Gen.overlaps q qs qe b1 b1s b2 b2e = ov ⟨q, qs⟩ ⟨q, qe⟩ ⟨b1, b1s⟩ ⟨b2, b2e⟩ :=
+  gen_overlaps_eq_ov q qs qe b1 b1s b2 b2e
+
+end RT
